@@ -518,7 +518,175 @@ func mapOrderFamily(w *World, prop string) ([]*Obligation, []string) {
 			}
 		}
 	}
-	return out, []string{fmt.Sprintf("map-ordered loops examined: %d; exempt functions: %d", nsites, len(exempt))}
+	// A slice taken from a map (reflect MapKeys, or filled in a map range loop) and then sorted is in
+	// an order that depends only on the map's contents only if the comparison cannot tie two different
+	// entries: it has to compare an injective key of the two elements. sort.Strings/Ints/Float64s
+	// compare the elements themselves; for sort.Slice/SliceStable the closure is examined: it must
+	// return g(x[i]) < g(x[j]) (or >) for one chain g of calls that are all declared injective
+	// (list order_injective_keys; reflect.Value.Interface is the identity on the value held).
+	nsorts := 0
+	for _, name := range sortedKeys(w.Funcs) {
+		fn := w.Funcs[name]
+		if exempt[name] != "" || len(fn.Blocks) == 0 {
+			continue
+		}
+		k := 0
+		for _, b := range fn.Blocks {
+			for _, in := range b.Instrs {
+				call, ok := in.(*ssa.Call)
+				if !ok || !isSortCall(call.Common()) || len(call.Call.Args) != 2 {
+					continue
+				}
+				callee := call.Call.StaticCallee().Name()
+				if callee != "Slice" && callee != "SliceStable" {
+					continue
+				}
+				if !mapDerived(call.Call.Args[0], 0) {
+					continue
+				}
+				k++
+				nsorts++
+				okCmp, why := comparatorInjective(call.Call.Args[1], injective)
+				pos, src := w.posAndSrc(call)
+				o := &Obligation{Name: fmt.Sprintf("%s/sortkey#%d", name, k), Kind: "maporder", Func: name, Pos: pos, Src: src, PC: "true", Goal: "injective-key", Props: []string{"C03"},
+					Comment: "a slice taken from a map is sorted by a comparison that cannot tie two different entries: " + why}
+				if okCmp {
+					o.Custom = "(set-logic ALL)(assert false)"
+				} else {
+					o.Custom = "(set-logic ALL)(assert true)" // sat: refuted
+				}
+				out = append(out, o)
+			}
+		}
+	}
+	return out, []string{fmt.Sprintf("map-ordered loops examined: %d; exempt functions: %d; sorts of map-derived slices examined: %d", nsites, len(exempt), nsorts)}
+}
+
+// mapDerived: the slice handed to a sort call comes from reflect.Value.MapKeys (directly or boxed).
+func mapDerived(v ssa.Value, depth int) bool {
+	if depth > 6 {
+		return false
+	}
+	switch x := v.(type) {
+	case *ssa.MakeInterface:
+		return mapDerived(x.X, depth+1)
+	case *ssa.Call:
+		if f := x.Call.StaticCallee(); f != nil && f.String() == "(reflect.Value).MapKeys" {
+			return true
+		}
+	case *ssa.Phi:
+		for _, e := range x.Edges {
+			if mapDerived(e, depth+1) {
+				return true
+			}
+		}
+	case *ssa.Slice:
+		return mapDerived(x.X, depth+1)
+	case *ssa.UnOp:
+		// load of a local that is captured by the comparison closure
+		if al, ok := x.X.(*ssa.Alloc); ok && x.Op == token.MUL {
+			if refs := al.Referrers(); refs != nil {
+				for _, r := range *refs {
+					if st, ok := r.(*ssa.Store); ok && st.Addr == al && mapDerived(st.Val, depth+1) {
+						return true
+					}
+				}
+			}
+		}
+	}
+	return false
+}
+
+// comparatorInjective examines a `less` closure: a single return of g(x[i]) < g(x[j]) or
+// g(x[i]) > g(x[j]) with the same chain g of injective calls on both sides.
+func comparatorInjective(less ssa.Value, injective map[string]bool) (bool, string) {
+	mc, ok := less.(*ssa.MakeClosure)
+	if !ok {
+		return false, "the comparison is not a function literal"
+	}
+	fn, ok := mc.Fn.(*ssa.Function)
+	if !ok || len(fn.Blocks) != 1 || len(fn.Params) != 2 {
+		return false, "the comparison is not a single expression of its two indices"
+	}
+	var ret *ssa.Return
+	for _, in := range fn.Blocks[0].Instrs {
+		if r, ok := in.(*ssa.Return); ok {
+			ret = r
+		}
+	}
+	if ret == nil || len(ret.Results) != 1 {
+		return false, "no single result"
+	}
+	bo, ok := ret.Results[0].(*ssa.BinOp)
+	if !ok || (bo.Op != token.LSS && bo.Op != token.GTR) {
+		return false, "the result is not a < or > comparison"
+	}
+	chain := func(v ssa.Value) (calls []string, idx ssa.Value, base ssa.Value, ok bool) {
+		for depth := 0; depth < 12; depth++ {
+			switch x := v.(type) {
+			case *ssa.Call:
+				f := x.Call.StaticCallee()
+				if f == nil {
+					return nil, nil, nil, false
+				}
+				args := x.Call.Args
+				if len(args) != 1 {
+					return nil, nil, nil, false
+				}
+				n := calleeName(f)
+				if f.Pkg != nil && f.Pkg.Pkg.Path() != fn.Pkg.Pkg.Path() {
+					n = f.String()
+				}
+				calls = append(calls, n)
+				v = args[0]
+			case *ssa.UnOp:
+				if x.Op != token.MUL {
+					return nil, nil, nil, false
+				}
+				ia, isIdx := x.X.(*ssa.IndexAddr)
+				if !isIdx {
+					return nil, nil, nil, false
+				}
+				return calls, ia.Index, ia.X, true
+			case *ssa.ChangeType:
+				v = x.X
+			default:
+				return nil, nil, nil, false
+			}
+		}
+		return nil, nil, nil, false
+	}
+	c1, i1, b1, ok1 := chain(bo.X)
+	c2, i2, b2, ok2 := chain(bo.Y)
+	if !ok1 || !ok2 {
+		return false, "an operand is not a chain of calls applied to an element of the sorted slice"
+	}
+	if strings.Join(c1, ";") != strings.Join(c2, ";") {
+		return false, "the two operands are computed differently"
+	}
+	if !sameLoad(b1, b2) {
+		return false, "the two operands come from different slices"
+	}
+	if !((i1 == ssa.Value(fn.Params[0]) && i2 == ssa.Value(fn.Params[1])) || (i1 == ssa.Value(fn.Params[1]) && i2 == ssa.Value(fn.Params[0]))) {
+		return false, "the operands are not the elements at the two indices"
+	}
+	for _, n := range c1 {
+		if n == "(reflect.Value).Interface" || injective[n] {
+			continue
+		}
+		return false, "the key is computed by " + n + ", which is not declared injective (list order_injective_keys)"
+	}
+	return true, "compares " + strings.Join(c1, " of ") + " of the two elements"
+}
+
+// sameLoad: both values are loads of the same captured variable (or the same value).
+func sameLoad(a, b ssa.Value) bool {
+	if a == b {
+		return true
+	}
+	ua, ok1 := a.(*ssa.UnOp)
+	ub, ok2 := b.(*ssa.UnOp)
+	return ok1 && ok2 && ua.Op == token.MUL && ub.Op == token.MUL && ua.X == ub.X
 }
 
 func inBody(v ssa.Value, body map[int]bool) bool {
